@@ -3,7 +3,7 @@ CONFIG = {
     "coq_dirs": ["theories/Outputs"],
     "coq_targets": ["theories/Outputs/Properties.vo", "theories/Outputs/Corr.vo"],
     "properties_files": ["theories/Outputs/Properties.v"],
-    "required_theorems": ["accepted_iff_inside", "escape_rejected", "parents_exist", "tree_wellformed", "outputs_exact", "model_satisfies_P_partial"],
+    "required_theorems": ["accepted_iff_inside", "escape_rejected", "parents_exist", "tree_wellformed", "outputs_exact", "parents_frame", "model_satisfies_P"],
     "harnesses": [
         {"cmd": "outputs", "cases_quick": 400, "cases_thorough": 16000, "shards_quick": 8, "shards_thorough": 32},
     ],
@@ -22,7 +22,7 @@ CONFIG = {
     "assumptions": [
         "digest function injective on Directory messages, and on Tree messages (SHA-256 collision-free, protobuf serialisation injective); nothing assumed across blob kinds",
         "parents_exist: the input root has no non-directory on the way to a declared output's parent (otherwise Mkdir's EEXIST is ignored and no error is raised: Example parents_exist_unconditional_refuted)",
-        "partial: the frame half of the parent-creation monitor (p_parents_frame: input root undamaged, nothing unnecessary created) is checked on implementation traces but not proved of the model",
+        "parents_frame / model_satisfies_P: the input root is a directory tree, i.e. names within each listing are distinct (names_distinct; checked by Corr.v of every recorded input root; Example frame_needs_distinct_names shows the monitor itself is meaningless otherwise)",
         "legacy Command.output_files/output_directories are ignored by this snapshot's code and by the model (the harness fills them in 30% of commands)",
         "failures of the environment (ReadDir, UploadFile, Readlink, CAS Put, Mkdir other than EEXIST) are not modelled; C09 covers storage failures",
     ],
